@@ -34,10 +34,8 @@ domainvalid(const char * const host)
 			 return 1;
 		}
 		if (*h == '.') {
-			const char *lastdt = (dt == NULL) ? host : dt;
-
 			/* each string between two dots must not exceed 63 characters */
-			if (h - lastdt > 64)
+			if (h - ((dt == NULL) ? host : dt + 1) > 63)
 				return 1;
 			dt = h;
 			h++;
